@@ -188,6 +188,21 @@ CHECKS["C16"] = dict(
         "divergence the rest of a trace is not compared. Redis / MongoDB plugins are not in this repository.",
    design="6/C16", technique=TECH)
 
+CHECKS["C13"] = dict(
+   text=("Trigger.tla: pending occurrences, run claims, the loop iteration as the code's sequence of store accesses, two loop "
+         "actors, three small shapes: NeverTwice, OneRunPerOccurrence, NotZeroAfterIteration, ArgsFromThatOccurrence, AndNeedsAll, "
+         "AndConsumes (pinned-code deviations kept as expected counterexamples). Cron.tla: scheduled minutes, the decision "
+         "procedure with compare-and-swap for one and two pollers: AtMostOncePerTick, NoneOutsideWindow, FiresWhenDue. Real "
+         "trigger stores (memory, SQLite) with real TriggerBuilder definitions: histories of events / status / result / "
+         "exception occurrences and loop iterations, sequentially and with two loop actors (+ reporter) under the deterministic "
+         "scheduler at store-call / SQL-statement granularity (every schedule with <= 2 preemptions + seeded); launches read "
+         "back from the registered invocations; TriggerTrace.tla evaluates the formulas. Cron: generated expressions x window / "
+         "interval x poll sequences on both stores against an independent brute-force schedule; CronTrace.tla replays the "
+         "decision procedure (strict) and the rule."),
+   note="Cron expressions of the generated family use the minute and hour fields; strict_timing mode is not varied; the loop is "
+        "driven by the harness, not by a runner thread.",
+   design="6/C13", technique=TECH)
+
 NOT_YET = {}
 
 def main() -> None:
